@@ -502,7 +502,7 @@ def check_program_ports(ctx, p):
 def run(ctx):
     from vf.gen.prog import gen_program
 
-    for i in ctx.mine(ctx.n(300, 10000)):
+    for i in ctx.mine(ctx.n(300, 30000)):
         r = ctx.rng("program", i)
         p = gen_program(r, budget=30, kind="module" if i % 4 == 0 else None,
                         force=("rowpoly-call",) if i % 4 == 0 else ())
@@ -510,7 +510,7 @@ def run(ctx):
         ctx.case("program", p, nn is not None and nn >= 6)
     from vf.gen.types import Gen
 
-    for i in ctx.mine(ctx.n(800, 20000)):
+    for i in ctx.mine(ctx.n(800, 100000)):
         r = ctx.rng("retyped", i)
         g = Gen(r, allow_vars=False)
         c = {"k": "Retyped", "op": r.choice(["MakeTuple", "UnpackTuple", "Noop", "CallIndirect"]),
